@@ -686,6 +686,10 @@ def main():
     print("C16: tier=%s seed=%d states=%d scenarios=%d replayed=%d random=%d corruption_reads=%d snapshot_loads=%d "
           "divergences=%d wall=%.1fs" % (tier, seed, states, total_scen, st["replay"]["cases"], st["random"]["cases"],
                                          cor["reads"], st["snap"]["reads"], ndiv, time.time() - t0), flush=True)
+    # ---- node-level recovery composition (spec/Recover.tla): which snapshot the node starts from, where the WAL replay begins
+    import recoverlib
+    recoverlib.run(tier, V, PROP, coverage)
+    coverage["evaluations"] = int(coverage["evaluations"]) + coverage["recover_model"]["replayed"]
     V.finish(tier, "fault_enumeration", coverage, assumptions)
 
 
